@@ -256,14 +256,21 @@ def rule_cache(ctx, rep, rid="R-C11-cache"):
         # the cached parse result is handed out, never taken apart: a mutable use of `library` (mem::take of the diagnostics, Option::take,
         # replace) other than the assignment that fills it leaves a cache that no longer is the parse of the text
         k_ = 0
-        for _, kind, pl in bd.place_uses():
-            if kind != "mutref":
+        for i_, j_, s_ in bd.all_stmts():
+            if not (s_[0] == "=" and s_[2][0] == "ref" and s_[2][1] == "mut"):
                 continue
-            fs_ = [x for x in bd.root(pl)[1] if isinstance(x, list) and x[0] == "f"]
-            if any(x[3] == SRC and x[2] == "library" for x in fs_):
-                k_ += 1
-                r.finding("%s|mutable use of Source.library#%d" % (fn, k_), "%s:%d" % (bd.f["file"], bd.f["line"]), "the cached parse result is borrowed mutably (to take or replace a part of it): after the "
-                          "first answer the cache is no longer the parse of the text - a document that does not parse yields its diagnostics once and then nothing")
+            fs_ = [x for x in bd.root(s_[2][2])[1] if isinstance(x, list) and x[0] == "f"]
+            if not any(x[3] == SRC and x[2] == "library" for x in fs_):
+                continue
+            # fill-if-empty is the cache filler itself, written as one call: Option::get_or_insert_with hands out the stored value and
+            # only writes when the Option is None
+            users = [c for c in bd.calls() if any(op_place(a) is not None and op_place(a)[0] == s_[1][0] for a in c.args)]
+            if users and all((c.callee or "").endswith("Option::get_or_insert_with") and fn == SRC + "::library" for c in users):
+                r.ok("%s|fills Source.library when empty (get_or_insert_with)" % fn, loc_str(bd.f, s_[3]))
+                continue
+            k_ += 1
+            r.finding("%s|mutable use of Source.library#%d" % (fn, k_), "%s:%d" % (bd.f["file"], bd.f["line"]), "the cached parse result is borrowed mutably (to take or replace a part of it): after the "
+                      "first answer the cache is no longer the parse of the text - a document that does not parse yields its diagnostics once and then nothing")
         # mutations of FileBackedProject.sources
         for c in bd.calls():
             if not c.callee or not c.callee.startswith("std::collections::hash::map::HashMap::") and not c.callee.startswith("alloc::collections::btree::map::BTreeMap::"):
@@ -283,21 +290,38 @@ def rule_cache(ctx, rep, rid="R-C11-cache"):
     lb = ctx.prog.get(SRC + "::library")
     if lb:
         lb = lb[0]
-        pc = [c for c in lb.calls() if c.callee == "ironplc_parser::parse_program"]
+        from vlib import units
+        pc = [(bd_, c) for bd_, c, site in units.calls_in_unit(ctx, lb) if c.callee == "ironplc_parser::parse_program"]
         ok = False
-        for c in pc:
-            a0 = lb.root(op_place(c.args[0]))
-            a1 = lb.root(op_place(c.args[1]))
-            # arg0 derives from self.data (through Borrow::borrow), arg1 from self.file_id
-            def derives(root, field):
-                if fields_of(root)[-1:] == [field]:
+
+        def derives(op, field, bd_, depth=5):
+            """the operand is (a borrow / Borrow::borrow / deref of) self.<field>; inside a closure, captured variables are followed out"""
+            p = op_place(op)
+            for _ in range(depth):
+                if p is None:
+                    return False
+                root = bd_.root(p)
+                if bd_ is not lb and root[0] == 1:
+                    o2 = units.upvar_operand(ctx, lb, bd_, root)
+                    if o2 is None:
+                        return False
+                    return derives(o2, field, lb, depth - 1)
+                if fields_of(root)[-1:] == [field] and (bd_ is not lb or root[0] == 1):
                     return True
-                d = lb.single_def(root[0])
-                if d and d[0] == "call" and d[2].args:
-                    rr = lb.root(op_place(d[2].args[0]))
-                    return fields_of(rr)[-1:] == [field]
+                d = bd_.single_def(root[0])
+                if d and d[0] == "call" and d[2].args and (d[2].callee or d[2].u or "").split("::")[-1] in ("borrow", "deref", "as_ref", "as_str", "clone"):
+                    p = op_place(d[2].args[0])
+                    continue
+                if d and d[0] == "stmt" and d[3][0] == "use" and d[3][1][0] in ("cp", "mv"):
+                    p = d[3][1][1]
+                    continue
+                if d and d[0] == "stmt" and d[3][0] == "ref":
+                    p = d[3][2]
+                    continue
                 return False
-            if derives(a0, "data") and derives(a1, "file_id"):
+            return False
+        for bd_, c in pc:
+            if derives(c.args[0], "data", bd_) and derives(c.args[1], "file_id", bd_):
                 ok = True
         if ok:
             r.ok("Source::library|parse_program(self.data, self.file_id)", "%s:%d" % (lb.f["file"], lb.f["line"]))
